@@ -100,7 +100,7 @@ impl Gen<'_> {
                     MVal::F((100.5 + self.next_val as f64).to_bits())
                 }
             }
-            ElemKind::Zst => MVal::Unit,
+            ElemKind::Zst | ElemKind::UnitTy => MVal::Unit,
             ElemKind::Nested => MVal::Int(0), // replaced by caller
         };
         self.pool.push(v.clone());
@@ -117,7 +117,7 @@ impl Gen<'_> {
                 ElemKind::Str => MVal::Str("absent".into()),
                 ElemKind::T24 | ElemKind::Big => MVal::Obj(999),
                 ElemKind::F64 => MVal::F((*self.r.pick(&[99.25f64, 0.0, -0.0, f64::NAN])).to_bits()),
-                ElemKind::Zst => MVal::Unit,
+                ElemKind::Zst | ElemKind::UnitTy => MVal::Unit,
                 ElemKind::Nested => MVal::Int(0),
             }
         } else {
@@ -146,6 +146,7 @@ fn elem_for(r: &mut Rng, with_nested: bool) -> ElemKind {
             ElemKind::U32,
             ElemKind::OptU64,
             ElemKind::OptStr,
+            ElemKind::UnitTy,
         ])
     } else {
         *r.pick(&[
@@ -164,6 +165,7 @@ fn elem_for(r: &mut Rng, with_nested: bool) -> ElemKind {
             ElemKind::U32,
             ElemKind::OptU64,
             ElemKind::OptStr,
+            ElemKind::UnitTy,
         ])
     }
 }
@@ -488,6 +490,7 @@ pub fn execute(d: &ListDesc, w: &Arc<Warm>, keep_trace: bool) -> RunResult {
         ElemKind::U32 => exec_t::<u32>(d, w, keep_trace),
         ElemKind::OptU64 => exec_t::<Option<u64>>(d, w, keep_trace),
         ElemKind::OptStr => exec_t::<Option<RotoString>>(d, w, keep_trace),
+        ElemKind::UnitTy => exec_t::<()>(d, w, keep_trace),
     }
 }
 
